@@ -31,12 +31,15 @@ jobs = [("unchanged", None, None)]
 for d in sorted(glob.glob("/verif/seeded/*/")):
     m = json.load(open(d + "meta.json"))
     jobs.append(("seed", d + "patch.diff", (os.path.basename(d[:-1]), [m["property"]] + m.get("also_for", []))))
+for d in sorted(glob.glob("/verif/seeded-mutants/*/")):
+    m = json.load(open(d + "meta.json"))
+    jobs.append(("mutant", d + "patch.diff", (os.path.basename(d[:-1]), m.get("property"), m["file"] + " " + m["func"])))
 for p in sorted(glob.glob("/verif/benign/*/*.diff")):
     jobs.append(("benign", p, p.replace("/verif/benign/", "")))
 def work(i_job):
     i, (kind, patch, info) = i_job
     return kind, info, run(patch, f"j{i}")
-out = {"unchanged": [], "seed": [], "benign": []}
+out = {"unchanged": [], "seed": [], "benign": [], "mutant": []}
 with cf.ThreadPoolExecutor(W) as ex:
     for kind, info, (rc, rules) in ex.map(work, enumerate(jobs)):
         out[kind].append((info, rc, rules))
@@ -54,6 +57,16 @@ for (name, props), rc, rules in out["seed"]:
     if flag: miss += 1
     print(f"  {name}: {res}{flag}")
 print(f"   {len(out['seed'])} seeds, {miss} missed")
+print("== property-breaking mutants of the sweep (DESIGN 8.21): reported by any check / by the check of the property the triage named")
+rep = own = 0
+for (name, prop, where), rc, rules in out["mutant"]:
+    if rc is None:
+        print(f"  {name}: {rules}"); continue
+    hit = sorted(p for p, v in rc.items() if v)
+    rep += bool(hit); own += bool(prop in hit)
+    if not hit:
+        print(f"  {name} ({prop}, {where}): NOT REPORTED")
+print(f"   {len(out['mutant'])} mutants, {rep} reported, {own} by the named property's check")
 print("== benign")
 al = 0
 for name, rc, rules in out["benign"]:
